@@ -93,7 +93,7 @@ CONF = {
     "C17": {
         "rule": "cases = sequential scenarios with BarQueueAfter links (70% of bars), chains, pop mode, removal, aborts, manual and injected auto refresh; non-trivial = a successor created after its predecessor finished, or a predecessor with >=2 successors, or a chain of >=3; distinct by FNV-64 of the scenario JSON",
         "assumptions": GO_ASSUME + SCHED_ASSUME + ["open findings C17-second-successor-overwrites and C17-late-successor are excluded from the generator by construction and probed by their reproducers"],
-        "tiers": tiers(8, 300, 16, 10000),
+        "tiers": tiers(8, 2000, 16, 40000),
         "require_classes": ["queued", "exact-model", "chain>=3", "successor-after-predecessor-finished", "refresh:autoinj"],
     },
 }
